@@ -818,7 +818,7 @@ func tarHeader(content *files.Content, preferredModTimes ...time.Time) (*tar.Hea
 	fm := content.Mode()
 
 	h := &tar.Header{
-		Name: content.Name(),
+		Name: files.AsExplicitRelativePath(content.Destination),
 		ModTime: modtime.Get(
 			append(preferredModTimes, content.ModTime())...),
 		Mode:   int64(fm & 0o7777),
